@@ -21,6 +21,8 @@ Section Parse.
   Proof. exact (if2_ends E HE ln). Qed.
   Theorem nothing_swallowed_after_for : forall te i a r, good te -> for_branch E te i = Ok a r -> ends_with_brace i r.
   Proof. intros te i a r G H. exact (for_branch_ends E HE te i a r G H). Qed.
+  Theorem nothing_swallowed_after_match : forall te i a r, good te -> match_branch E te i = Ok a r -> ends_with_brace i r.
+  Proof. intros te i a r G H. exact (match_branch_ends E HE te i a r G H). Qed.
 End Parse.
 
 (* completeness: template_expression returns exactly the AST that the declarative grammar [PI]
@@ -112,6 +114,7 @@ Proof. vm_compute. reflexivity. Qed.
 Redirect "assumptions/C03.block_ends_at_its_brace" Print Assumptions block_ends_at_its_brace.
 Redirect "assumptions/C03.nothing_swallowed_after_if" Print Assumptions nothing_swallowed_after_if.
 Redirect "assumptions/C03.nothing_swallowed_after_for" Print Assumptions nothing_swallowed_after_for.
+Redirect "assumptions/C03.nothing_swallowed_after_match" Print Assumptions nothing_swallowed_after_match.
 Redirect "assumptions/C03.template_grammar_complete" Print Assumptions template_grammar_complete.
 Redirect "assumptions/C03.a_derivation" Print Assumptions a_derivation.
 Redirect "assumptions/C03.emit_structure" Print Assumptions emit_structure.
